@@ -58,9 +58,10 @@ def show_tags(tags: Any) -> str:
 
 
 def norm_value(key: str, v: str) -> str:
-    """both sides: the empty tuple may be shown as "()" or "(,)"; a doubled
-    backslash stands for a backslash"""
-    v = v.replace("\\\\", "\\")
+    """both sides: the empty tuple may be shown as "()" or "(,)"; a run of
+    backslashes stands for a backslash (backslashes may be doubled for
+    graphviz, and a repr inside the text doubles them once more)"""
+    v = re.sub(r"\\+", r"\\", v)
     if v == "(,)":
         v = "()"
     return v
@@ -196,6 +197,10 @@ def function_label(f: Any) -> str:
     return str(ts[0].identifier) if ts else ""
 
 
+def out_name(s: str) -> str:
+    return norm_cluster_label(disp(s))
+
+
 def norm_cluster_label(s: str) -> str:
     """generated labels of unnamed functions (func, func_0, ...) are one label"""
     return "func" if re.fullmatch(r"func(_[0-9]+)?", s) or s == "" else s
@@ -210,6 +215,7 @@ class _SourceBuilder:
         self.pos: dict[tuple[int, int], int] = {}     # (ns, class) -> node position (1-based)
         self.addr: dict[int, tuple[int, int]] = {}    # id(obj) -> (ns, class)
         self._pending: list[tuple[int, Any]] = []
+        self._fn_seen: set[int] = set()
 
     def add_graph(self, ns: int, roots: list[Any]) -> list[int]:
         """number everything below *roots* in name space *ns*; -> positions of
@@ -239,7 +245,8 @@ class _SourceBuilder:
             nd = {"ns": ns, "kind": kind, "title": title,
                   "must": {"_": "", **{k: norm_value(k, disp(v)) for k, v in must.items()}},
                   "may": {"_": "", **{k: norm_value(k, disp(v)) for k, v in may.items()}},
-                  "name": str(getattr(o, "name", "") or "") if kind in ("ph", "in") else "",
+                  "name": out_name(str(getattr(o, "name", "") or ""))
+                  if kind in ("ph", "in") else "",
                   "fn": 0, "kids": kids, "oids": [id(o)]}
             if kind == "call":
                 nd["fn"] = self.function(o.function)
@@ -250,7 +257,11 @@ class _SourceBuilder:
     def function(self, f: Any) -> int:
         c = self.interner.cls(f)
         if c in self.fn_index:
+            if id(f) not in self._fn_seen:
+                self._fn_seen.add(id(f))
+                self._pending.append((self.fn_index[c], f))
             return self.fn_index[c]
+        self._fn_seen.add(id(f))
         self.funcs.append({})
         k = len(self.funcs)
         self.fn_index[c] = k
@@ -262,9 +273,11 @@ class _SourceBuilder:
             k, f = self._pending.pop(0)
             names = list(f.returns)
             ps = self.add_graph(k, [f.returns[n] for n in names])
-            self.funcs[k - 1] = {"label": norm_cluster_label(function_label(f)),
+            if self.funcs[k - 1]:
+                continue            # an equal definition met before: only its addresses
+            self.funcs[k - 1] = {"label": norm_cluster_label(disp(function_label(f))),
                                  "named": bool(function_label(f)),
-                                 "rets": [{"name": disp(n), "node": p}
+                                 "rets": [{"name": out_name(n), "node": p}
                                           for n, p in zip(names, ps)]}
 
 
@@ -275,8 +288,10 @@ def _reorder(S: dict) -> dict:
     n = len(S["nodes"])
     outnode = {o["name"]: o["node"] for o in S["outputs"]}
     deps: list[set[int]] = [set(e["to"] for e in nd["kids"]) for nd in S["nodes"]]
+    users = {u for p in S["parts"] for u in p["user"]}
     for k, nd in enumerate(S["nodes"]):
-        if nd["ns"] == 0 and nd["kind"] == "ph" and nd["name"] in outnode:
+        if nd["ns"] == 0 and nd["kind"] == "ph" and nd["name"] in outnode \
+                and nd["name"] not in users:
             deps[k].add(outnode[nd["name"]])
     order: list[int] = []
     state = [0] * n
@@ -321,13 +336,14 @@ def source_of_outputs(outs: dict[str, Any]) -> dict:
     ps = b.add_graph(0, [outs[n] for n in names])
     b.finish_functions()
     user = sorted({nd["name"] for nd in b.nodes if nd["ns"] == 0 and nd["kind"] == "ph"})
+    # (the name field of an input is compared with output names: same spelling)
     del pt
     S = {"nodes": b.nodes, "funcs": b.funcs,
          "parts": [{"pid": "None", "label": "None", "trivial": True,
-                    "outs": [disp(n) for n in names],
+                    "outs": [out_name(n) for n in names],
                     "user": user, "recvs": [], "sends": []}],
-         "outputs": [{"name": disp(n), "node": p} for n, p in zip(names, ps)],
-         "overall": [disp(n) for n in names]}
+         "outputs": [{"name": out_name(n), "node": p} for n, p in zip(names, ps)],
+         "overall": [out_name(n) for n in names]}
     return _finish(S, b)
 
 
@@ -344,28 +360,30 @@ def source_of_partition(part: Any) -> dict:
     parts = []
     trivial = len(part.parts) == 1 and next(iter(part.parts)) is None
     for pid, p in part.parts.items():
-        recvs = [{"name": disp(nm),
+        recvs = [{"name": out_name(nm),
                   "must": {"_": "", "shape": norm_value("shape", disp(show_tuple(rv.shape))),
                            "dtype": disp(str(rv.dtype)), "src_rank": disp(str(rv.src_rank)),
                            "comm_tag": disp(str(rv.comm_tag))}}
                  for nm, rv in p.name_to_recv_node.items()]
-        sends = [{"name": disp(nm), "data": sendpos[id(s.data)],
+        sends = [{"name": out_name(nm), "data": sendpos[id(s.data)],
                   "must": {"_": "", "dest_rank": disp(str(s.dest_rank)),
                            "comm_tag": disp(str(s.comm_tag))}}
                  for nm, ss in p.name_to_send_nodes.items() for s in ss]
         parts.append({"pid": str(pid), "label": norm_cluster_label(disp(str(pid))),
                       "trivial": trivial,
-                      "outs": sorted(disp(n) for n in p.output_names),
-                      "user": sorted(p.user_input_names), "recvs": recvs, "sends": sends})
+                      "outs": sorted(out_name(n) for n in p.output_names),
+                      "user": sorted(out_name(n) for n in p.user_input_names),
+                      "recvs": recvs, "sends": sends})
     S = {"nodes": b.nodes, "funcs": b.funcs, "parts": parts,
-         "outputs": [{"name": disp(n), "node": p} for n, p in zip(names, ps)],
-         "overall": [disp(n) for n in part.overall_output_names]}
+         "outputs": [{"name": out_name(n), "node": p} for n, p in zip(names, ps)],
+         "overall": [out_name(n) for n in part.overall_output_names]}
     return _finish(S, b)
 
 
 def _finish(S: dict, b: _SourceBuilder) -> dict:
     S = _reorder(S)
     S["_addr"] = {}
+    S["_dups"] = any(len(nd["oids"]) > 1 for nd in S["nodes"])
     for k, nd in enumerate(S["nodes"], start=1):
         for a in nd["oids"]:
             S["_addr"][a] = k
@@ -393,21 +411,9 @@ def rendering(text: str, addr_to_node: dict[int, int] | None = None) -> dict:
         labels[path] = norm_cluster_label(disp(vizdot.plain_text(*lab))) if lab else path[-1]
     ids = list(g.nodes)
     raw: dict[str, dict] = {}
-    multi = 0
+    home_of, multi = vizdot.homes(g)
     for nid, nd in g.nodes.items():
-        clusters = [p for p in nd.member if p[-1].startswith("cluster")]
-        home: tuple[str, ...] = ()
-        if clusters:
-            # membership should be one chain of nested clusters; otherwise the
-            # first cluster in text order counts (graphviz keeps a node in the
-            # first cluster it meets it in)
-            deepest = max(clusters, key=len)
-            if all(deepest[:len(p)] == p for p in clusters):
-                home = deepest
-            else:
-                multi += 1
-                first = clusters[0]
-                home = max((p for p in clusters if p[:len(first)] == first), key=len)
+        home = home_of[nid]
         cl = [labels[home[:k]] for k in range(1, len(home) + 1)
               if home[:k][-1].startswith("cluster")]
         lab = nd.attrs.get("label")
@@ -431,7 +437,8 @@ def rendering(text: str, addr_to_node: dict[int, int] | None = None) -> dict:
                 except ValueError:
                     oid = -1
         else:
-            title = disp(vizdot.plain_text(*lab)) if lab is not None else nid
+            title = norm_cluster_label(disp(vizdot.plain_text(*lab))) if lab is not None \
+                else nid
             fd = {"_": ""}
             plain = True
         raw[nid] = {"id": nid, "cl": cl, "title": title, "fields": fd, "plain": plain,
@@ -537,6 +544,7 @@ def picture(S: dict, mode: tuple = ()) -> list[dict]:
             fl = S["funcs"][f - 1]["label"]
             add(("fe", p, f), cl=[*pcl(p), fl], title=fl, must={"_": ""}, plain=True)
     producer: dict[str, int] = {}
+    users = {u for part in S["parts"] for u in part["user"]}
     for p, part in enumerate(S["parts"]):
         for n in part["outs"]:
             producer.setdefault(n, p)
@@ -557,6 +565,8 @@ def picture(S: dict, mode: tuple = ()) -> list[dict]:
             if nm in recv_of:
                 items[it - 1]["kids"].append({"to": index[recv_of[nm]], "lab": "",
                                               "style": "dotted", "anyinst": False})
+            elif nm in users:
+                pass            # a user input: no arrow
             elif nm in producer:
                 q = producer[nm]
                 items[it - 1]["kids"].append({"to": index[inst(q, outnode[nm])], "lab": "",
